@@ -84,9 +84,28 @@ def _coq_make(targets=None):
     return rc == 0, out
 
 
-def forbidden_tokens():
+def coq_closure(roots):
+    """Files (absolute) that the given .v files (relative to coq/) depend on
+    inside this development, found from their `From Gnmi Require` lines."""
+    seen, todo = set(), [os.path.join(COQ, r) for r in roots]
+    while todo:
+        f = todo.pop()
+        if f in seen or not os.path.exists(f):
+            continue
+        seen.add(f)
+        code = strip_comments(open(f, errors="replace").read())
+        for m in re.finditer(r"From\s+Gnmi\s+Require\s+(?:Import|Export)?\s*([^.]*(?:\.[A-Za-z][^.\s]*)*)\s*\.", code):
+            for mod in m.group(1).split():
+                todo.append(os.path.join(COQ, mod.replace(".", os.sep) + ".v"))
+        for m in re.finditer(r"Require\s+(?:Import|Export)?\s*((?:Gnmi\.[A-Za-z0-9_.]+\s*)+)\.", code):
+            for mod in m.group(1).split():
+                todo.append(os.path.join(COQ, mod[len("Gnmi."):].replace(".", os.sep) + ".v"))
+    return sorted(seen)
+
+
+def forbidden_tokens(files=None):
     hits = []
-    for f in coq_sources():
+    for f in (files or coq_sources()):
         code = strip_comments(open(f, errors="replace").read())
         for n, line in enumerate(code.split("\n"), 1):
             if FORBIDDEN.search(line):
@@ -141,8 +160,11 @@ def check_props(pid):
 # --------------------------------------------------------------------------
 # Go side
 
-def overlay():
-    """Map harness sources into the repository's module without touching it."""
+def overlay(name):
+    """Map harness sources into the repository's module without touching it.
+    Per harness: harness/<name>/**, harness/vh/** and the in-package files
+    harness/inpkg/<pkg>/zz_verif_<name>*.go (so that one property's unfinished
+    files cannot break another property's build)."""
     rep = {}
     hroot = os.path.join(ROOT, "harness")
     for d, _, fs in os.walk(hroot):
@@ -150,21 +172,26 @@ def overlay():
             if not f.endswith(".go"):
                 continue
             rel = os.path.relpath(os.path.join(d, f), hroot)
-            if rel.startswith("inpkg" + os.sep):
+            top = rel.split(os.sep)[0]
+            if top == "inpkg":
+                if not f.startswith("zz_verif_" + name):
+                    continue
                 dst = os.path.join(REPO, rel[len("inpkg" + os.sep):])
-            else:
+            elif top in (name, "vh"):
                 dst = os.path.join(REPO, "zz_verif", rel)
+            else:
+                continue
             rep[dst] = os.path.join(d, f)
     os.makedirs(BUILD, exist_ok=True)
     tag = hashlib.sha1(REPO.encode()).hexdigest()[:8]
-    path = os.path.join(BUILD, "overlay_%s.json" % tag)
+    path = os.path.join(BUILD, "overlay_%s_%s.json" % (name, tag))
     json.dump({"Replace": rep}, open(path, "w"), indent=1)
     return path
 
 
 def go_build(name, race=False, test_pkg=None):
     """Build harness binary zz_verif/<name> from the current working tree."""
-    ov = overlay()
+    ov = overlay(name)
     tag = hashlib.sha1(REPO.encode()).hexdigest()[:8]
     out = os.path.join(BUILD, "%s_%s%s" % (name, tag, "_race" if race else ""))
     cmd = ["go", "build", "-overlay", ov, "-tags", "verif", "-o", out]
@@ -307,7 +334,7 @@ class Check:
                                            broken="theorem:" + str(props["failing"]),
                                            log=props["log"][-3000:]))
                 violations.append((rp, " no-failing-input-found"))
-        bad = forbidden_tokens()
+        bad = forbidden_tokens(coq_closure(["Props/%s.v" % pid] + [t[:-1] for t in (self.coq_targets or [])]))
         if bad:
             rp = self.replay_path(dict(property=pid, kind="proof", broken="forbidden-token", hits=bad))
             violations.append((rp, " no-failing-input-found"))
